@@ -26,6 +26,9 @@ var vC04Shapes = []vC04Shape{
 	{"'a' + 'b'", "ss"}, {"key + 'a' + 'b'", "ss"}, {"'a' + key", "s"}, {"'a' + 'b' + key", "ss"}, {"key + ('a' + 'b')", "ss"},
 	{"'a' + key + 'b'", "ss"}, {"'a' + value + 'b' + 'c'", "sss"}, {"'a' + upper(key) + 'b'", "ss"}, {"'a' + (key + 'b')", "ss"}, {"'a' + key + value + 'b'", "ss"},
 	{"2 * int(value) * 3", "pp"}, {"1 + int(value) + 2 + 3", "iii"}, {"2 * (int(value) * 3)", "pp"}, {"1 + strlen(key) + 2", "ii"}, {"0.5 + int(value) + 1.5", "ff"},
+	{"int(lower('7'))", "t"}, {"float(upper('1.5'))", "t"}, {"int(substr('123', 0, 2))", "tkk"}, {"int('1' + '2')", "uu"}, {"int('12')", "t"},
+	{"float('1.5')", "t"}, {"is_int(lower('7'))", "t"}, {"is_float(upper('7'))", "t"}, {"strlen(lower('AB'))", "t"}, {"int(join('', '1', '2'))", "kuu"},
+	{"int(str(7))", "d"}, {"int_list(lower('7'), 2)[0]", "tk"}, {"len(split(lower('a,b'), ','))", "tk"},
 	{"upper('ab')", "s"}, {"lower('AB')", "s"}, {"strlen('ab') + 1", "si"}, {"int('12') + 1", "ki"}, {"str(5)", "d"}, {"str(2 + 3)", "pp"},
 	{"is_int('12')", "s"}, {"join(',', 'a', 'b')", "sss"}, {"substr('abc', 0, 2)", "skk"}, {"upper('a' + 'b')", "ss"}, {"strlen(upper('ab'))", "s"},
 	{"1 = 2", "ii"}, {"1 != 2", "ii"}, {"1 < 2", "ii"}, {"1 >= 2", "ii"}, {"0.5 < 1.5", "ff"}, {"1 < 0.5", "pf"}, {"'a' = 'b'", "ss"}, {"'a' < 'b'", "ss"},
@@ -74,6 +77,12 @@ func vOverwrite(lits []Expression, vals []vLitVal, kinds string) {
 		if kinds[j] == 'k' {
 			continue
 		}
+		if kinds[j] == 't' || kinds[j] == 'u' {
+			if n, ok := l.(*StringExpr); ok {
+				n.Data = vals[j].s
+			}
+			continue
+		}
 		switch n := l.(type) {
 		case *NumberExpr:
 			n.Int = vals[j].i
@@ -95,6 +104,9 @@ func vSameValue(a, b any) bool {
 	switch x := a.(type) {
 	case int64:
 		y, ok := b.(int64)
+		return ok && x == y
+	case int:
+		y, ok := b.(int)
 		return ok && x == y
 	case float64:
 		y, ok := b.(float64)
@@ -145,6 +157,10 @@ func VH_C04(si int) {
 			vals[j].f = vNondetFloatPool(tag, vFloatPool)
 		case 's':
 			vals[j].s = vNondetString(tag, 0, 2, "0123456789abAB")
+		case 'u':
+			vals[j].s = vNondetString(tag, 0, 1, " 7.-")
+		case 't': // numeric-looking text with padding, signs and dots
+			vals[j].s = vNondetString(tag, 0, 2, " 7.-,")
 		}
 	}
 	vOverwrite(lo, vals, sh.kinds)
